@@ -48,6 +48,16 @@ def build_scenario(ctx, nv):
     for u in list(h.pool):
         if abs(u) != 1 and u not in h.held and rng.random() < 0.6:
             h.hold(u)
+    if rng.random() < 0.4:
+        # `bdd.roots`: a few held references (either sign) and possibly a node nobody holds (the
+        # collection that sifting starts with frees it: the noted edge dangles, nothing else)
+        rs = [u if rng.random() < 0.5 else -u for u in rng.sample(h.held, min(len(h.held), 2))]
+        loose = [u for u in h.pool if abs(u) in h.b._succ and abs(u) != 1 and u not in h.held
+                 and h.b._ref.get(abs(u)) == 0]
+        if loose and rng.random() < 0.6:
+            rs.append(rng.choice(loose))
+        h.s.op(0, 'set_roots', ','.join(map(str, sorted(set(rs)))))
+        ctx.count('roots-set')
     lines = [ln for ln in h.s.lines]
     held = list(h.held)
     h.s.close()
